@@ -1,32 +1,54 @@
 --------------------------------------------- MODULE Reduce ---------------------------------------------
-(* C07 -- one grid object over its life: constructor-argument round trip and pitch changes
-   (armi/reactor/grids/structuredGrid.py StructuredGrid.reduce / offset setter, hexagonal.py
-   HexGrid.changePitch, cartesian.py CartesianGrid.changePitch).
+(* C07 -- one grid object over its life: constructor-argument round trip, pitch changes, saved state
+   (armi/reactor/grids/structuredGrid.py StructuredGrid.reduce / backUp / restoreBackup / offset setter,
+   hexagonal.py HexGrid.changePitch, cartesian.py CartesianGrid.changePitch).
 
-   State   g   the grid descriptor of GridGeom (kind, variant, step sizes, offset, bounds, limits, metadata)
+   State   g      the grid descriptor of GridGeom (kind, variant, step sizes, offset, bounds, limits, metadata)
+                  plus `how`, the way the object was constructed -- nothing observable may depend on it:
+                    "factory"  fromPitch / fromRectangle / bounds constructors with float arguments
+                    "ints"     the same factories called with python ints (whole-cm sizes)
+                    "ctor"     CartesianGrid(unitSteps=((w,0,0),(0,h,0),(0,0,0)) given as python ints, ...)
+           stack  what backUp() saved and restoreBackup() has not yet taken back (LIFO): <<[p, off], ...>>
+           taken  <<>> or <<descriptor at the moment Snapshot was taken>>: the harness keeps the tuple that
+                  reduce() returned then and a second grid built from that tuple
    Actions
      ChangePitch(p)  hex: changePitch(P');  Cartesian: changePitch(w', h'), which "also scales the offset"
-                     (offset_x * w'/w, offset_y * h'/h, 0)
+                     (offset_x * w'/w, offset_y * h'/h, 0); the new sizes include non-integral numbers of cm
+                     (2.5 x 3.5 cm, 0.24 cm, 16.8 cm) applied to grids built from whole numbers
      SetOffset(off)  grid.offset = off            (hex and bounds grids; Cartesian grids derive theirs)
-     Rebuild         the object is replaced by a new type(g) built from the arguments g.reduce(); the abstract state must not change
+     BackUp          grid.backUp()                 push the current pitch and offset
+     RestoreBackup   grid.restoreBackup()          pitch, offset (and bounds) return to the values at the matching backUp
+     Snapshot        remember reduce() and build a twin from it; from then on both must keep describing `taken`
+     Rebuild         the object is replaced by a new type(g) built from the arguments g.reduce(); the abstract
+                     grid must not change (the new object has no saved state: stack' = <<>>)
      NoPitch         refusal: ThetaRZGrid.pitch() raises NotImplementedError, nothing changes
    Clauses
      "a grid rebuilt from its stored constructor arguments gives the same coordinates and metadata for every
       index"      Rebuild leaves g -- hence every observation -- unchanged (binding: the harness rebuilds the real
                   object and compares the complete observation); in-spec: ReduceDetermines says the reduce()
                   tuple determines the descriptor among all modelled grids of the class.
-     "changing the pitch rescales coordinates and nothing else"   PitchRescalesOnly.
+     "changing the pitch rescales coordinates and nothing else"   PitchRescalesOnly for the grid itself;
+                  "nothing else" also covers state taken earlier: OnlySnapshotTouchesTaken (the reduce() tuple and
+                  the twin are not changed by any later action) and the stack discipline of BackUp/RestoreBackup
+                  (a later ChangePitch/SetOffset does not reach into what backUp saved).
    Interpretation: for a hex grid with a non-zero offset, changePitch rescales the step part (coordinate minus
    offset) and keeps the offset; for Cartesian grids the offset is half a cell by construction and is rescaled
    with the cell, as the method documents.                                                                *)
 EXTENDS GridGeom
 
-VARIABLES g, act, err
-vars == <<g>>
+CONSTANTS MaxStack,     \* depth of the backUp stack explored
+          Rich          \* TRUE: all pitch values; FALSE: a smaller set for the quick tier
+
+VARIABLES g, stack, taken, act, err
+vars == <<g, stack, taken>>
 
 NoB == <<>>
-HexPitches  == {<<1680, 1680>>, <<24, 24>>, <<720, 720>>}
-CartPitches == {<<2100, 2140>>, <<100, 60>>, <<128, 128>>}
+\* 2400 = 24 cm and 200 x 300 = 2 x 3 cm are the whole-number sizes grids are built from with ints;
+\* 250 x 350 = 2.5 x 3.5 cm, 24 = 0.24 cm, 1680 = 16.8 cm are not whole numbers of cm
+HexPitches  == IF Rich THEN {<<1680, 1680>>, <<24, 24>>, <<720, 720>>, <<2400, 2400>>}
+               ELSE {<<1680, 1680>>, <<24, 24>>, <<2400, 2400>>}
+CartPitches == IF Rich THEN {<<2100, 2140>>, <<100, 60>>, <<128, 128>>, <<250, 350>>, <<200, 300>>}
+               ELSE {<<2100, 2140>>, <<250, 350>>, <<200, 300>>}
 Offsets     == {<<0, 0, 0>>, <<50, -225, 300>>}
 ZOffsets    == {<<0, 0, 0>>, <<0, 0, 300>>}
 AxZ  == <<0, 2500, 10000, 17600>>
@@ -34,47 +56,70 @@ TrzT == <<1, 3, 5, 7>>                     \* eighths of a turn: cell centres at
 TrzR == <<0, 200, 250, 300>>
 TrzZ == <<0, 1000, 2000, 3000>>
 
-HexGrid(var, p, off, sym, geom) == [kind |-> "hex", var |-> var, p |-> p, off |-> off, zb |-> NoB, tb |-> NoB, rb |-> NoB,
-                                    rings |-> 3, sym |-> sym, geom |-> geom]
+HexGrid(var, p, off, sym, geom, how) ==
+    [kind |-> "hex", var |-> var, p |-> p, off |-> off, zb |-> NoB, tb |-> NoB, rb |-> NoB,
+     rings |-> 3, sym |-> sym, geom |-> geom, how |-> how]
 CartOff(var, p) == IF var = "offset" THEN <<p[1] \div 2, p[2] \div 2, 0>> ELSE <<0, 0, 0>>
-CartGrid(var, p, sym, geom) == [kind |-> "cart", var |-> var, p |-> p, off |-> CartOff(var, p), zb |-> NoB, tb |-> NoB,
-                                rb |-> NoB, rings |-> 3, sym |-> sym, geom |-> geom]
+CartGrid(var, p, sym, geom, how) ==
+    [kind |-> "cart", var |-> var, p |-> p, off |-> CartOff(var, p), zb |-> NoB, tb |-> NoB,
+     rb |-> NoB, rings |-> 3, sym |-> sym, geom |-> geom, how |-> how]
 AxGrid(off)  == [kind |-> "ax", var |-> "", p |-> <<0, 0>>, off |-> off, zb |-> AxZ, tb |-> NoB, rb |-> NoB,
-                 rings |-> 0, sym |-> "", geom |-> ""]
+                 rings |-> 0, sym |-> "", geom |-> "", how |-> "factory"]
 \* AxialGrid.fromNCells(3): "each bin is 1-cm tall" (100 units), numCells + 1 bounds
 AxUnit(off)  == [kind |-> "ax", var |-> "unit", p |-> <<0, 0>>, off |-> off, zb |-> <<0, 100, 200, 300>>, tb |-> NoB,
-                 rb |-> NoB, rings |-> 0, sym |-> "", geom |-> ""]
+                 rb |-> NoB, rings |-> 0, sym |-> "", geom |-> "", how |-> "factory"]
 TrzGrid(off) == [kind |-> "trz", var |-> "", p |-> <<0, 0>>, off |-> off, zb |-> TrzZ, tb |-> TrzT, rb |-> TrzR,
-                 rings |-> 0, sym |-> "", geom |-> ""]
+                 rings |-> 0, sym |-> "", geom |-> "", how |-> "factory"]
 
 \* every descriptor the model can reach
 AllGrids ==
-    {HexGrid(v, p, o, s[1], s[2]) : v \in {"flats", "corners"}, p \in HexPitches, o \in Offsets,
-                                    s \in {<<"", "">>, <<"third periodic", "hex">>}}
-    \cup {CartGrid(v, p, s[1], s[2]) : v \in {"centred", "offset"}, p \in CartPitches,
-                                       s \in {<<"", "">>, <<"quarter reflective", "cartesian">>}}
+    {HexGrid(v, p, o, s[1], s[2], "factory") : v \in {"flats", "corners"}, p \in HexPitches, o \in Offsets,
+                                               s \in {<<"", "">>, <<"third periodic", "hex">>}}
+    \cup {HexGrid(v, p, o, "", "", "ints") : v \in {"flats", "corners"}, p \in HexPitches, o \in Offsets}
+    \cup {CartGrid(v, p, s[1], s[2], "factory") : v \in {"centred", "offset"}, p \in CartPitches,
+                                                  s \in {<<"", "">>, <<"quarter reflective", "cartesian">>}}
+    \cup {CartGrid(v, p, "", "", h) : v \in {"centred", "offset"}, p \in CartPitches, h \in {"ints", "ctor"}}
     \cup {AxGrid(o) : o \in Offsets} \cup {AxUnit(o) : o \in Offsets} \cup {TrzGrid(o) : o \in ZOffsets}
 Pitches(k) == IF k = "hex" THEN HexPitches ELSE IF k = "cart" THEN CartPitches ELSE {}
-FirstPitch(k) == IF k = "hex" THEN <<1680, 1680>> ELSE IF k = "cart" THEN <<2100, 2140>> ELSE <<0, 0>>
+\* the size an object is constructed with: floats for "factory", whole numbers of cm otherwise
+FirstPitch(k, how) == IF k = "hex" THEN (IF how = "factory" THEN <<1680, 1680>> ELSE <<2400, 2400>>)
+                      ELSE IF k = "cart" THEN (IF how = "factory" THEN <<2100, 2140>> ELSE <<200, 300>>)
+                      ELSE <<0, 0>>
 
 Changed(gr, p) ==
     IF gr.kind = "hex" THEN [gr EXCEPT !.p = p]
     ELSE [gr EXCEPT !.p = p,
                     !.off = <<(gr.off[1] * p[1]) \div gr.p[1], (gr.off[2] * p[2]) \div gr.p[2], 0>>]
+Saved(gr) == [p |-> gr.p, off |-> gr.off]
 
-Init == /\ g \in {x \in AllGrids : x.p = FirstPitch(x.kind) /\ x.off \in {<<0, 0, 0>>, CartOff(x.var, x.p)}}
+Init == /\ g \in {x \in AllGrids : x.p = FirstPitch(x.kind, x.how) /\ x.off \in {<<0, 0, 0>>, CartOff(x.var, x.p)}}
+        /\ stack = <<>> /\ taken = <<>>
         /\ act = [n |-> "Init"] /\ err = ""
 ChangePitch(p) == /\ p \in Pitches(g.kind) /\ p # g.p
-                  /\ g' = Changed(g, p)
+                  /\ g' = Changed(g, p) /\ UNCHANGED <<stack, taken>>
                   /\ act' = [n |-> "ChangePitch", p |-> p] /\ err' = ""
 SetOffset(off) == /\ g.kind # "cart" /\ off # g.off
                   /\ off \in (IF g.kind = "trz" THEN ZOffsets ELSE Offsets)
-                  /\ g' = [g EXCEPT !.off = off]
+                  /\ g' = [g EXCEPT !.off = off] /\ UNCHANGED <<stack, taken>>
                   /\ act' = [n |-> "SetOffset", off |-> off] /\ err' = ""
-Rebuild == UNCHANGED g /\ act' = [n |-> "Rebuild"] /\ err' = ""
-NoPitch == g.kind = "trz" /\ UNCHANGED g /\ act' = [n |-> "NoPitch"] /\ err' = "NotImplementedError"
+BackUp == /\ Len(stack) < MaxStack
+          /\ stack' = Append(stack, Saved(g)) /\ UNCHANGED <<g, taken>>
+          /\ act' = [n |-> "BackUp"] /\ err' = ""
+RestoreBackup == /\ stack # <<>>
+                 /\ g' = [g EXCEPT !.p = stack[Len(stack)].p, !.off = stack[Len(stack)].off]
+                 /\ stack' = SubSeq(stack, 1, Len(stack) - 1) /\ UNCHANGED taken
+                 /\ act' = [n |-> "RestoreBackup"] /\ err' = ""
+Snapshot == /\ taken = <<>>
+            /\ taken' = <<g>> /\ UNCHANGED <<g, stack>>
+            /\ act' = [n |-> "Snapshot"] /\ err' = ""
+Rebuild == /\ UNCHANGED <<g, taken>> /\ stack' = <<>>
+           /\ act' = [n |-> "Rebuild"] /\ err' = ""
+NoPitch == g.kind = "trz" /\ UNCHANGED vars /\ act' = [n |-> "NoPitch"] /\ err' = "NotImplementedError"
 Next == \/ \E p \in HexPitches \cup CartPitches : ChangePitch(p)
         \/ \E off \in Offsets \cup ZOffsets : SetOffset(off)
+        \/ BackUp
+        \/ RestoreBackup
+        \/ Snapshot
         \/ Rebuild
         \/ NoPitch
 
@@ -90,14 +135,17 @@ Bounds(gr) == <<gr.tb, gr.rb, gr.zb>>
 Reduced(gr) == [unitSteps |-> UnitSteps(gr), bounds |-> Bounds(gr), limits |-> IndexBounds(gr),
                 offset |-> gr.off, geom |-> gr.geom, sym |-> gr.sym]
 \* within one class the stored arguments determine the grid (nothing the observations depend on is lost)
-ReduceDetermines == \A h \in AllGrids : (h.kind = g.kind /\ Reduced(h) = Reduced(g)) => h = g
+\* (`how` is not stored and must not matter)
+ReduceDetermines == \A h \in AllGrids : (h.kind = g.kind /\ Reduced(h) = Reduced(g)) => [h EXCEPT !.how = g.how] = g
 
 (* ------------------------------------ samples and laws ------------------------------------ *)
 Samples(gr) == IF IsStep(gr) THEN << <<0, 0, 0>>, <<1, 0, 0>>, <<-1, 2, 0>>, <<2, -3, 0>>, <<0, -1, 0>>, <<-2, 1, 1>> >>
                ELSE IF gr.kind = "ax" THEN << <<0, 0, 0>>, <<0, 0, 1>>, <<0, 0, 2>> >>
                ELSE << <<0, 0, 0>>, <<1, 2, 1>>, <<2, 1, 2>> >>
 SampleSet(gr) == {Samples(gr)[t] : t \in 1..Len(Samples(gr))}
-TypeOK == g \in AllGrids
+TypeOK == /\ g \in AllGrids /\ Len(stack) <= MaxStack /\ Len(taken) <= 1
+          /\ \A k \in 1..Len(stack) : [g EXCEPT !.p = stack[k].p, !.off = stack[k].off] \in AllGrids
+          /\ \A k \in 1..Len(taken) : taken[k] \in AllGrids /\ taken[k].kind = g.kind /\ taken[k].how = g.how
 CellsAreAffine == \A idx \in SampleSet(g) : ValidIdx(g, idx) /\ ThmCellIsAffine(g, idx)
 \* number q = a + b sqrt(3) scaled:  q1 * n2 = q2 * n1  componentwise
 QProp(q1, n1, q2, n2) == q1[1] * n2 = q2[1] * n1 /\ q1[2] * n2 = q2[2] * n1
@@ -120,27 +168,38 @@ PitchRescalesOnly ==
         /\ (g.kind = "cart" => \A idx \in SampleSet(g) :
                /\ QProp(Centre(h, idx)[1], p[1], Centre(g, idx)[1], g.p[1])
                /\ QProp(Base(h, idx)[2], p[2], Base(g, idx)[2], g.p[2]))
-RefusalsChangeNothing == [][err' # "" => UNCHANGED vars]_<<g, act, err>>
+RefusalsChangeNothing == [][err' # "" => UNCHANGED vars]_<<g, stack, taken, act, err>>
+\* what was taken earlier is not touched by anything that happens to the grid later
+OnlySnapshotTouchesTaken == [][act'.n # "Snapshot" => taken' = taken]_<<g, stack, taken, act, err>>
+\* only backUp / restoreBackup / a new object touch the saved states; restoreBackup gives back exactly the
+\* pitch and offset of the matching backUp
+BackupDiscipline ==
+    [][/\ (act'.n \notin {"BackUp", "RestoreBackup", "Rebuild"} => stack' = stack)
+       /\ (act'.n = "BackUp" => stack' = Append(stack, Saved(g)) /\ g' = g)
+       /\ (act'.n = "RestoreBackup" => Saved(g') = stack[Len(stack)] /\ Append(stack', stack[Len(stack)]) = stack)
+      ]_<<g, stack, taken, act, err>>
 
 (* ------------------------------------ observation ------------------------------------ *)
-CellObs(idx) == [idx    |-> idx,
-                 centre |-> Centre(g, idx),       \* native: (theta, r, z) for theta-R-Z grids
-                 base   |-> Base(g, idx),
-                 top    |-> Top(g, idx),
-                 xyz    |-> IF g.kind = "trz" THEN TrzXYZ(g, idx) ELSE Centre(g, idx),
-                 rp     |-> OwnRingPos(g, idx),
-                 label  |-> Label(g, idx),
-                 nums   |-> LabelNums(g, idx)]      \* the numbers the label denotes (ring, position, k for hex)
-Obs == [kind   |-> g.kind,
-        var    |-> g.var,
-        pitch  |-> g.p,
-        offset |-> g.off,
-        reducedOffsetIsNone |-> (g.off = <<0, 0, 0>>),
-        bounds |-> Bounds(g),
-        limits |-> IndexBounds(g),
-        nloc   |-> NumLocations(g),
-        sym    |-> g.sym,
-        geom   |-> g.geom,
-        axial  |-> IsAxialOnly(g),
-        cells  |-> [t \in 1..Len(Samples(g)) |-> CellObs(Samples(g)[t])]]
+CellObs(gr, idx) == [idx    |-> idx,
+                     centre |-> Centre(gr, idx),       \* native: (theta, r, z) for theta-R-Z grids
+                     base   |-> Base(gr, idx),
+                     top    |-> Top(gr, idx),
+                     xyz    |-> IF gr.kind = "trz" THEN TrzXYZ(gr, idx) ELSE Centre(gr, idx),
+                     rp     |-> OwnRingPos(gr, idx),
+                     label  |-> Label(gr, idx),
+                     nums   |-> LabelNums(gr, idx)]      \* the numbers the label denotes (ring, position, k for hex)
+GridObs(gr) == [kind   |-> gr.kind,
+                var    |-> gr.var,
+                pitch  |-> gr.p,
+                offset |-> gr.off,
+                reducedOffsetIsNone |-> (gr.off = <<0, 0, 0>>),
+                bounds |-> Bounds(gr),
+                limits |-> IndexBounds(gr),
+                nloc   |-> NumLocations(gr),
+                sym    |-> gr.sym,
+                geom   |-> gr.geom,
+                axial  |-> IsAxialOnly(gr),
+                cells  |-> [t \in 1..Len(Samples(gr)) |-> CellObs(gr, Samples(gr)[t])]]
+\* the grid itself, and (if a snapshot was taken) what the kept reduce() tuple and the twin must still describe
+Obs == [grid |-> GridObs(g), taken |-> [k \in 1..Len(taken) |-> GridObs(taken[k])]]
 =====================================================================================================
